@@ -291,7 +291,8 @@ func (ir *IntrospectionResolver) resolveDirective(schema *ast.Schema, directive 
 func hasDeprecatedDirective(directives ast.DirectiveList) (bool, *string) {
 	for _, d := range directives {
 		if d.Name == "deprecated" {
-			var reason string
+			// the default value of the reason argument
+			reason := "No longer supported"
 			reasonArg := d.Arguments.ForName("reason")
 			if reasonArg != nil {
 				reason = reasonArg.Value.Raw
